@@ -120,13 +120,14 @@ def sandbox():
 class FactoryAdapter:
     WEIGHTS = {"DUMP1": 10.0, "DUMP2": 240.0}
 
-    def __init__(self):
+    def __init__(self, zs=(1, 95, 119)):
         armi_ready()
         from armi import context
         from armi.nucDirectory import elements, nuclideBases as nb
 
         self.nb, self.elements, self.context = nb, elements, context
         self.resdir = common.workdir("c19res")
+        self.zs = zs  # the elements of the specification's universe (ZUsed), in increasing order
 
     def build(self, root):
         nb = self.nb
@@ -180,7 +181,8 @@ class FactoryAdapter:
         finally:
             self.context.RES = old
 
-    def project(self, w, zs=(1, 95, 119)):
+    def project(self, w):
+        zs = self.zs
         from harness import gen_nuctable as g
 
         d = g.observe_directory()
@@ -196,24 +198,10 @@ def _norm_obs(o):
     return o
 
 
-def factory(rep, tier, seed):
-    thorough = tier == "thorough"
-    mcfg = "NuclideFactory_mc_thorough.cfg" if thorough else "NuclideFactory_mc.cfg"
-    ecfg = "NuclideFactory_emit_thorough.cfg" if thorough else "NuclideFactory_emit.cfg"
-    if not _SELFTEST:
-        res = tlc.run("NuclideFactory_mc", mcfg, MODDIR, want_prints=False, timeout=3000)
-        rep.add_tlc("exhaustive:" + mcfg, res)
-        if res.violation:
-            rep.violation("tlc:factory:" + res.violation["name"], "TLC: %s violated in NuclideFactory" % res.violation["name"],
-                          {"direction": "tlc", "trace": res.violation["trace"][:20000]})
-        never = [a for a in FACTORY_ACTIONS if res.coverage.get(a, (0, 0))[1] == 0]
-        if never:
-            raise tlc.MachineryError("vacuous: actions never taken in %s: %s" % (mcfg, never))
+def edge_graph(ecfg):
     if ecfg not in _CACHE:
         _CACHE[ecfg] = tlc.run("NuclideFactory_mc", ecfg, MODDIR, workers=1, coverage=False, timeout=3000)
     eres = _CACHE[ecfg]
-    if not _SELFTEST:
-        rep.add_tlc("edges:" + ecfg, eres)
     obs = {rp.skey(p["st"]): p["obs"] for p in eres.prints if isinstance(p, dict) and "st" in p}
     edges = []
     for p in eres.prints:
@@ -227,6 +215,25 @@ def factory(rep, tier, seed):
     g = rp.Graph(edges)
     if g.states() != eres.distinct:
         raise tlc.MachineryError("state key of NuclideFactory_mc is not injective: %d keys for %d states" % (g.states(), eres.distinct))
+    return eres, g
+
+
+def factory(rep, tier, seed):
+    thorough = tier == "thorough"
+    mcfg = "NuclideFactory_mc_thorough.cfg" if thorough else "NuclideFactory_mc.cfg"
+    ecfg = "NuclideFactory_emit_thorough.cfg" if thorough else "NuclideFactory_emit.cfg"
+    if not _SELFTEST:
+        res = tlc.run("NuclideFactory_mc", mcfg, MODDIR, want_prints=False, timeout=3000)
+        rep.add_tlc("exhaustive:" + mcfg, res)
+        if res.violation:
+            rep.violation("tlc:factory:" + res.violation["name"], "TLC: %s violated in NuclideFactory" % res.violation["name"],
+                          {"direction": "tlc", "trace": res.violation["trace"][:20000]})
+        never = [a for a in FACTORY_ACTIONS if res.coverage.get(a, (0, 0))[1] == 0]
+        if never:
+            raise tlc.MachineryError("vacuous: actions never taken in %s: %s" % (mcfg, never))
+    eres, g = edge_graph(ecfg)
+    if not _SELFTEST:
+        rep.add_tlc("edges:" + ecfg, eres)
     ad = FactoryAdapter()
     with sandbox():
         n, nt, divs = rp.replay_graph(g, ad, max_edges=1500 if _SELFTEST else None if thorough else 6000, rng=random.Random(seed))
@@ -323,9 +330,27 @@ def live_directory(rep, doc, path):
     for f in fails:
         if f["clause"] == "NoShared":
             shared.add((MCC3_FAMILY.get(f["col"], f["col"]), json.loads(f["detail"]) if f["detail"].startswith('"') else f["detail"]))
+    # a systematic failure (an encoder, an index) hits hundreds of nuclides: report it once per input class, with examples
+    rowinfo = {r["name"]: r for r in doc["rows"]}
+    groups = {}
     for f in fails:
-        rep.violation(nuc_key(f, shared), "nuclide directory: clause %s fails for %s (%s): %s" % (f["clause"], f["who"], f["col"], f["detail"]),
-                      {"direction": "table", "part": "nuc", "failure": f})
+        groups.setdefault((f["clause"], MCC3_FAMILY.get(f["col"], f["col"])), []).append(f)
+    for (clause, col), fs in groups.items():
+        if len(fs) <= 8 or clause in ("NoShared", "Abundance", "BurnChain", "ElementsIndexed"):
+            for f in fs:
+                rep.violation(nuc_key(f, shared), "nuclide directory: clause %s fails for %s (%s): %s" % (f["clause"], f["who"], f["col"], f["detail"]),
+                              {"direction": "table", "part": "nuc", "failure": f})
+            continue
+        classes = {}
+        for f in fs:
+            r = rowinfo.get(f["who"])
+            cls = "%s:state%d" % (r["kind"], r["s"]) if r else "key"
+            classes.setdefault(cls, []).append(f)
+        for cls, cf in sorted(classes.items()):
+            rep.violation("nuc:%s:%s:%s" % (clause, col, cls),
+                          "nuclide directory: clause %s (%s) fails for %d nuclides of class %s, e.g. %s" % (
+                              clause, col, len(cf), cls, "; ".join("%s %s" % (f["who"], f["detail"]) for f in cf[:4])),
+                          {"direction": "table", "part": "nuc", "failure": cf[0], "count": len(cf), "examples": [f["who"] for f in cf[:50]]})
     rep.add_traces("live-nuclide-directory", 1, nrows,
                    "the module-level state the real factory built at import (+ imposeBurnChain), exported row by row through the "
                    "nuclides' own getters and the dictionaries' own values, validated by TLC against every clause of NuclideDirectory")
@@ -409,7 +434,7 @@ def run(rep, tier, seed):
         "MC2-2 identifiers are opaque library names (retrievable, agreeing, unique); MC2-3 identifiers follow the pattern symbol+A(+M), padded with _ to five characters, + 7",
         "natural abundances sum to one within 1e-4 (the tabulated wallet-card percentages; armi's own tests use the same tolerance)",
         "library material = every class of armi.materials except Material, Fluid, SimpleSolid, FuelMaterial, Water (abstract), Custom, _Mixture, Void",
-        "mass fractions sum to one within the sum of the data precisions of the entries (half a unit in the last decimal place as written, at least 1 ppb)",
+        "mass fractions sum to one within 1e-5 (ten units of the last decimal of the finest hand-typed composition, MOX)",
         "density = Material.density and Material.pseudoDensity, expansion = linearExpansionPercent (+ volumetricExpansion where a range is stated for it); "
         "all are probed over every stated density / expansion range, in the stated unit, end points exactly as stated; "
         "a class without a stated range is probed over a nominal 25..600 C (clauses Nominal...)",
@@ -521,6 +546,17 @@ def selftest():
     print("%s  spec-level: destroyGlobalNuclides leaves Element.nuclides behind -> MembershipInv %s by TLC" % (
         "caught " if ok else "MISSED ", "refuted" if ok else "NOT refuted"))
     rc |= 0 if ok else 1
+    # 0b. the half-registration on an MCNP-identifier collision: refuted by TLC, and the real code follows the model (it is real)
+    res = tlc.run("NuclideFactory_mc", "NuclideFactory_mcnp.cfg", MODDIR, workers=4, want_prints=False, timeout=600)
+    ok = res.violation is not None and res.violation["name"] in ("LookupSameInv", "MembershipInv", "KeysOwnedInv")
+    print("%s  spec-level: addGlobalNuclide half-registers a nuclide whose MCNP identifier collides -> %s by TLC (%s)" % (
+        "caught " if ok else "MISSED ", "refuted" if ok else "NOT refuted", res.violation["name"] if res.violation else "-"))
+    rc |= 0 if ok else 1
+    _, g = edge_graph("NuclideFactory_mcnp_emit.cfg")
+    with sandbox():
+        n, nt, divs = rp.replay_graph(g, FactoryAdapter(zs=(19,)))
+    print("%s  the real constructors follow the as-built model on %d edges (%d divergences)" % ("conforms" if not divs and n else "MISSED ", n, len(divs)))
+    rc |= 0 if not divs and n else 1
 
     def detect():
         rep = Report("C19", "quick", 0)
@@ -563,8 +599,11 @@ def selftest():
         nb.byName["AM242"] = am242m
         nb.byDBName["nAm242"] = am242m
 
-    def special_noop():
-        return None
+    def special_alias_not_moved():
+        am242g = nb.byName["AM242"]
+        am242g.name = "AM242G"
+        nb.byName["AM242G"] = am242g
+        nb.byDBName[am242g.getDatabaseName()] = am242g
 
     orig_mcc = nb.readMCCNuclideData
 
@@ -575,8 +614,18 @@ def selftest():
     def append_no_sort_dedupe(self, nuclide):
         self.nuclides.append(nuclide)
 
-    def natural_includes_elemental(self):
-        return [nuc for nuc in self.nuclides if nuc.abundance > 0.0]
+    def natural_ge_zero(self):
+        return [nuc for nuc in self.nuclides if nuc.abundance >= 0.0 and nuc.a > 0]
+
+    orig_lump_init = nb.LumpNuclideBase.__init__
+
+    def lump_in_dummy_element(self, name, weight):
+        real = elements.byName["LumpedFissionProduct"]
+        elements.byName["LumpedFissionProduct"] = elements.byName["Dummy"]
+        try:
+            orig_lump_init(self, name, weight)
+        finally:
+            elements.byName["LumpedFissionProduct"] = real
 
     orig_tr_init = transmutations.Transmutable.__init__
 
@@ -628,12 +677,12 @@ def selftest():
         ("addGlobalNuclide: second isomers missing from byDBName", lambda: rebuilt(P(nb, "addGlobalNuclide", add_forgets_dbname))),
         ("addGlobalNuclide: isomers keyed as ground state in byAAAZZZSId", lambda: rebuilt(P(nb, "addGlobalNuclide", add_azs_for_ground_only))),
         ("updateNuclideBasesForSpecialCases: byDBName not re-pointed", lambda: rebuilt(P(nb, "updateNuclideBasesForSpecialCases", special_forgets_dbname))),
-        ("updateNuclideBasesForSpecialCases does nothing", lambda: rebuilt(P(nb, "updateNuclideBasesForSpecialCases", special_noop))),
+        ("updateNuclideBasesForSpecialCases: AM242 still returns the ground state", lambda: rebuilt(P(nb, "updateNuclideBasesForSpecialCases", special_alias_not_moved))),
         ("readMCCNuclideData: one VII.1 key points at another nuclide", lambda: rebuilt(P(nb, "readMCCNuclideData", mcc_indexes_v0_under_v1))),
         ("Element.append: no duplicate check", lambda: rebuilt(P(elements.Element, "append", append_no_sort_dedupe))),
-        ("Element.getNaturalIsotopics keeps elemental nuclides", lambda: rebuilt(P(elements.Element, "getNaturalIsotopics", natural_includes_elemental))),
+        ("Element.getNaturalIsotopics: abundance >= 0", lambda: rebuilt(P(elements.Element, "getNaturalIsotopics", natural_ge_zero))),
+        ("LumpNuclideBase registers with the Dummy element", lambda: rebuilt(P(nb.LumpNuclideBase, "__init__", lump_in_dummy_element))),
         ("nuclides.dat: Fe-56 abundance 0.9175 -> 0.9715", lambda: rebuilt(files={"nuclides.dat": lambda t: t.replace("9.17539980000e-01", "9.71539980000e-01")})),
-        ("nuclides.dat: an isomer line of Am-242 keyed as state 2", lambda: rebuilt(files={"nuclides.dat": _am242m_as_state2})),
         ("mcc-nuclides.yaml: PU239 and PU240 swap their VII.1 identifiers", lambda: rebuilt(files={"mcc-nuclides.yaml": _swap_pu})),
         ("burn-chain.yaml: product typo NP237 -> NP273", lambda: rebuilt(files={"burn-chain.yaml": lambda t: t.replace("- NP237", "- NP273", 1)})),
         ("Transmutable: nGamma branching in percent", lambda: rebuilt(P(transmutations.Transmutable, "__init__", transmutable_percent))),
@@ -651,16 +700,6 @@ def selftest():
         del ht9.HT9._c19_orig
         del uraniumOxide.UraniumOxide._c19_lep
     return rc
-
-
-def _am242m_as_state2(txt):
-    out = []
-    for ln in txt.splitlines(True):
-        p = ln.split()
-        if len(p) > 4 and p[0] == "95" and p[2] == "242" and p[3] == "1":
-            ln = ln.replace("242 1", "242 2", 1) if "242 1" in ln else ln.replace(" 1 ", " 2 ", 1)
-        out.append(ln)
-    return "".join(out)
 
 
 def _swap_pu(txt):
